@@ -4,7 +4,9 @@ Tie: real QueryGarbageCollector.collect (SQLite) and KVGarbageCollector.collect 
 (LMDB) under an injected clock vs the Lean models (`gcSql`, `gcCollect` + `del` tasks); α = stored ids /
 full key list after the pass.  Search: removed = exactly {ephemeral kinds} ∪ {events whose expiration is a
 well-formed timestamp earlier than T}; nothing without expiration, with a future or malformed expiration
-goes; index entries go with the record.
+goes; index entries go with the record.  The passes are also run the way the relay runs them — one collector object under
+its periodic loop — with passes that fail mid-way (locked database, failing statement, engine errors, failing queued
+deletions) followed by unobstructed ones, which must be as exact as any other pass.
 """
 import random
 
@@ -219,6 +221,307 @@ def two_pass_case(report, drv, store, rng, tag):
     report.count("two_pass_" + store.backend)
 
 
+# ---- passes that fail mid-way, and the passes after them ---------------------------------------------------------------------
+#
+# In the running relay a collector is one long-lived object whose passes are started by util.Periodic (start() -> _run():
+# sleep, run_once(), log and swallow whatever run_once raised, sleep, ...).  A pass can fail for reasons that have nothing to do
+# with the events: the database is locked by another process, a statement fails, the engine refuses a transaction or raises in
+# the middle of a walk, a queued deletion fails in the writer.  The property is about every pass at time T, so it has to hold for
+# the passes that come after such a failure as well: one bad pass must not change what the later ones remove.  The scenarios
+# below run the collector exactly that way (the real start() / Periodic._run / run_once; only the sleep between passes — the
+# `wait_function` hook Periodic has for it — waits for the harness instead of the clock), put an obstacle in the way of one or
+# two passes, take it away and judge the passes that follow by the same oracle as everywhere else in this file.
+
+class _Relayed:
+    """one collector object driven by its real periodic loop; `tick(now)` lets exactly one pass run with the clock at `now`"""
+
+    def __init__(self, store, coll):
+        import asyncio
+
+        self.store, self.coll = store, coll
+        self.mod = store.kv if store.backend == "kv" else store.impl.db
+        self.ticks, self.idle = asyncio.Queue(), asyncio.Queue()
+        self.ended = None          # set when the periodic loop itself ended (it must not: nothing would ever be collected again)
+        self.last_raised = None
+        inner = coll.run_once
+
+        async def observed():      # observation only: what escaped run_once is passed on unchanged to Periodic._run
+            try:
+                return await inner()
+            except Exception as e:
+                self.last_raised = "%s: %s" % (type(e).__name__, " ".join(str(e).split())[:100])
+                raise
+
+        async def wait_function():
+            self.idle.put_nowait(None)
+            await self.ticks.get()
+
+        coll.run_once = observed
+        coll.wait_function = wait_function
+        store.run(coll.start())
+        store.run(self._until_idle())
+
+    async def _until_idle(self):
+        import asyncio
+
+        if self.ended is not None:
+            return
+        getter = asyncio.ensure_future(self.idle.get())
+        done, _ = await asyncio.wait({getter, self.coll._task}, timeout=120, return_when=asyncio.FIRST_COMPLETED)
+        if getter in done:
+            return
+        getter.cancel()
+        if self.coll._task in done:
+            exc = None if self.coll._task.cancelled() else self.coll._task.exception()
+            self.ended = "periodic loop ended (%s)" % (type(exc).__name__ if exc else "returned")
+            return
+        raise RuntimeError("C17 harness: a collection pass did not come back within 120 s")
+
+    def tick(self, now):
+        """one pass at `now`; returns what escaped run_once (None = the pass returned normally)"""
+        self.last_raised = None
+        if self.ended is not None:
+            return self.ended
+        orig = self.mod.time
+        self.mod.time = lambda: now
+        try:
+            self.ticks.put_nowait(now)
+            self.store.run(self._until_idle())
+        finally:
+            self.mod.time = orig
+        if self.store.backend == "kv":
+            self.store.quiesce()           # the writer works off the deletions the pass queued
+        return self.last_raised
+
+    def stop(self):
+        try:
+            self.store.run(self.coll.stop())
+        except Exception:
+            pass
+
+
+class _Obstacle:
+    """something that makes a pass fail, described by a small dict (so that it can be replayed):
+      sql  {"kind": "lock"}                       another connection holds SQLite's write lock (file-backed database only)
+      sql  {"kind": "statement", "when": w, "k"}  the k-th statement of the pass fails, before / after the engine ran it
+      kv   {"kind": "begin"}                      the engine refuses the pass's transaction (readers table full, map resized ...)
+      kv   {"kind": "seek", "k"}                  the k-th positioning of a cursor raises
+      kv   {"kind": "walk", "k"}                  the k-th key handed out by a cursor walk raises
+      kv   {"kind": "writer", "k"}                the k-th put/delete of the writer working off the queued deletions raises
+    `reached` tells afterwards whether the pass ran into it at all."""
+
+    def __init__(self, store, spec):
+        self.store, self.spec, self.reached = store, spec, False
+        self._undo = []
+
+    def __enter__(self):
+        kind, st = self.spec["kind"], self.store
+        if st.backend == "sql":
+            if kind == "lock":
+                import sqlite3
+
+                blocker = sqlite3.connect(st.dbfile, timeout=0.05, isolation_level=None)
+                blocker.execute("BEGIN IMMEDIATE")
+                self.reached = True
+                self._undo.append(lambda: (blocker.execute("ROLLBACK"), blocker.close()))
+            else:
+                import sqlalchemy as sa
+
+                engine, name, seen = st.storage.db.sync_engine, self.spec["when"] + "_cursor_execute", [0]
+
+                def hook(conn, cursor, statement, parameters, context, executemany):
+                    word = statement.split(None, 1)[0].upper() if statement.strip() else ""
+                    if word in ("PRAGMA", "BEGIN", "COMMIT", "ROLLBACK", "SAVEPOINT", "RELEASE"):
+                        return
+                    seen[0] += 1
+                    if seen[0] == self.spec["k"]:
+                        self.reached = True
+                        raise RuntimeError("injected: statement %d of the pass fails (%s)" % (seen[0], word))
+
+                sa.event.listen(engine, name, hook)
+                self._undo.append(lambda: sa.event.remove(engine, name, hook))
+        else:
+            lmdb = st.kv.lmdb
+            if kind == "begin":
+                orig = lmdb.Environment.begin
+
+                def begin(env, *a, **k):
+                    if env is st.env and not k.get("write") and not self.reached:
+                        self.reached = True
+                        raise lmdb.Error("injected: the engine refuses a read transaction")
+                    return orig(env, *a, **k)
+
+                lmdb.Environment.begin = begin
+                self._undo.append(lambda: setattr(lmdb.Environment, "begin", orig))
+            elif kind == "seek":
+                orig, seen = lmdb.Cursor.set_range, [0]
+
+                def set_range(cur, key):
+                    seen[0] += 1
+                    if seen[0] == self.spec["k"]:
+                        self.reached = True
+                        raise lmdb.Error("injected: cursor positioning fails")
+                    return orig(cur, key)
+
+                lmdb.Cursor.set_range = set_range
+                self._undo.append(lambda: setattr(lmdb.Cursor, "set_range", orig))
+            elif kind == "walk":
+                orig, seen = lmdb.Cursor.iternext, [0]
+
+                def iternext(cur, *a, **k):
+                    for item in orig(cur, *a, **k):
+                        seen[0] += 1
+                        if seen[0] == self.spec["k"]:
+                            self.reached = True
+                            raise lmdb.Error("injected: the engine raises in the middle of a walk")
+                        yield item
+
+                lmdb.Cursor.iternext = iternext
+                self._undo.append(lambda: setattr(lmdb.Cursor, "iternext", orig))
+            else:
+                lmdb.FAULT = {"countdown": self.spec["k"], "exc": lmdb.Error}
+
+                def undo():
+                    self.reached = bool(lmdb.FAULT) and lmdb.FAULT["countdown"] <= 0
+                    lmdb.FAULT = None
+
+                self._undo.append(undo)
+        return self
+
+    def __exit__(self, *exc):
+        while self._undo:
+            self._undo.pop()()
+        return False
+
+
+def gen_failed_pass_plan(rng, store):
+    """a replayable description of one scenario: events, an optional clean pass, one or two obstructed passes, late arrivals,
+    then two or three unobstructed passes of the same collector"""
+    def batch(base):
+        evs = gen_store(rng)
+        for i, e in enumerate(evs):
+            e["id"] = "%02x" % (base + i) + e["id"][2:]
+        # make sure something is collectable on either backend whatever the draw (LMDB never stores ephemeral kinds)
+        e = gen.gen_event(rng, authors=AUTH, kinds=[1, 7], times=[gen.T0])
+        e["tags"] = [["expiration", str(T - rng.choice([2, 50, 100000]))]]
+        e["id"] = "%02x" % (base + len(evs)) + e["id"][2:]
+        evs.insert(rng.randrange(len(evs) + 1), e)
+        return evs
+
+    if store.backend == "sql":
+        kinds = ["statement", "statement"] + (["lock", "lock"] if getattr(store, "dbfile", None) else [])
+        kind = rng.choice(kinds)
+        obstacle = {"kind": "lock"} if kind == "lock" else {"kind": "statement", "when": rng.choice(["before", "after"]), "k": 1}
+    else:
+        kind = rng.choice(["begin", "seek", "walk", "writer"])
+        obstacle = {"kind": kind}
+        if kind != "begin":
+            obstacle["k"] = rng.choice([1, 2]) if kind == "seek" else rng.choice([1, 1, 2, 3])
+    t_fail = T + rng.choice([-1, 0])
+    later = sorted(rng.choice([t_fail, T, T + 1]) for _ in range(rng.choice([2, 3])))
+    return {"scenario": "failed-pass", "backend": store.backend, "file": bool(getattr(store, "dbfile", None)),
+            "first": batch(0), "clean_pass_before": rng.choice([None, None, T - 1000]), "obstacle": obstacle,
+            "failing_passes": [t_fail] * rng.choice([1, 1, 2]), "late": batch(0x80) if rng.random() < 0.5 else [],
+            "passes_after": [max(t, t_fail) for t in later]}
+
+
+def failed_pass_case(report, store, plan, tag):
+    store.reset()
+    by_id = {}
+    for n in plan["first"] + plan["late"]:
+        by_id.setdefault(n["id"], n)
+    obstacle = plan["obstacle"]
+    name = "%s %s" % (store.backend, obstacle["kind"])
+    relay = _Relayed(store, store.new_collector())
+    payload = dict(plan)
+
+    def nothing_else(before, after, now, what):
+        for i in sorted(before - after):
+            ev = by_id.get(i)
+            if ev is not None and not may_collect(ev, now):
+                report.property_failure("%s: %s at %d removed %s (kind %d, expiration %r) which is neither ephemeral nor expired"
+                                        % (name, what, now, i[:8], ev["kind"], expirations(ev)), payload,
+                                        classify(ev, store.backend, True, now))
+        for i in sorted(after - before):
+            report.property_failure("%s: %s at %d made %s appear" % (name, what, now, i[:8]), payload, None)
+
+    def everything_due(after, now, what):
+        for i in sorted(after):
+            ev = by_id.get(i)
+            if ev is not None and should_collect(ev, now):
+                report.property_failure("%s: %s kept %s (kind %d, expiration %r) which is ephemeral or expired at %d"
+                                        % (name, what, i[:8], ev["kind"], expirations(ev), now), payload,
+                                        classify(ev, store.backend, False, now))
+
+    def index_rows(what):
+        if store.backend == "kv":
+            bad = coherence_violations(_KVView(store))
+            if bad:
+                report.property_failure("%s: keyspace incoherent after %s: %r" % (name, what, bad[:2]), payload, None)
+        else:
+            d = store.dump()
+            have = set(d["events"])
+            orphans = [t for t in d["tags"] if t.split("|")[0] not in have]
+            if orphans:
+                report.property_failure("%s: %s left %d tag-index rows of removed events behind (e.g. %s)"
+                                        % (name, what, len(orphans), orphans[0][:90]), payload, None)
+
+    try:
+        for n in plan["first"]:
+            store.add(n)
+        if plan["clean_pass_before"] is not None:
+            now = plan["clean_pass_before"]
+            before = store.ids()
+            raised = relay.tick(now)
+            after = store.ids()
+            if raised:
+                report.property_failure("%s: an unobstructed pass at %d did not complete: %s" % (name, now, raised), payload, None)
+            nothing_else(before, after, now, "the pass")
+            everything_due(after, now, "the pass at %d" % now)
+        reached = escaped = 0
+        for now in plan["failing_passes"]:
+            before = store.ids()
+            with _Obstacle(store, obstacle) as ob:
+                raised = relay.tick(now)
+            reached += bool(ob.reached)
+            escaped += bool(raised)
+            # a pass that failed may have done part of its work or none of it; what it did must still be "nothing else"
+            nothing_else(before, store.ids(), now, "the obstructed pass")
+            index_rows("the obstructed pass at %d" % now)
+        for n in plan["late"]:
+            store.add(n)
+        due_before = {i for i in store.ids() if i in by_id and should_collect(by_id[i], plan["passes_after"][-1])}
+        removed = 0
+        for j, now in enumerate(plan["passes_after"]):
+            before = store.ids()
+            raised = relay.tick(now)
+            after = store.ids()
+            removed += len(before - after)
+            if raised:
+                report.property_failure("%s: pass %d after the obstacle was gone (at %d) did not complete: %s"
+                                        % (name, j + 1, now, raised), payload, None)
+            nothing_else(before, after, now, "pass %d after the obstructed one" % (j + 1))
+        # the statement of the property, after the last of the unobstructed passes (not after the first: a collector that
+        # waits one interval after a failure would be within the property)
+        what = "%d unobstructed passes of the same collector after %d pass(es) that failed (%s)" % (
+            len(plan["passes_after"]), len(plan["failing_passes"]), obstacle["kind"])
+        everything_due(store.ids(), plan["passes_after"][-1], what)
+        index_rows(what)
+    finally:
+        relay.stop()
+    report.case((store.backend, "failed-pass", tag, repr(obstacle), repr([(e["kind"], expirations(e)) for e in plan["first"] + plan["late"]])),
+                nontrivial=bool(reached and due_before),
+                sample={"backend": store.backend, "failed_pass": obstacle, "file": plan["file"], "stored": len(by_id),
+                        "obstacle_reached": reached, "run_once_raised": escaped, "due_afterwards": len(due_before),
+                        "removed_afterwards": removed})
+    report.count("failed_pass_%s_%s" % (store.backend, obstacle["kind"]))
+    if reached:
+        report.count("failed_pass_obstacle_reached_" + store.backend)
+    if escaped:
+        report.count("failed_pass_run_once_raised_" + store.backend)
+    report.count("failed_pass_removed_afterwards_" + store.backend, removed)
+
+
 class _KVView:
     """adapter giving props.c10.coherence_violations what it needs from a KVStore"""
 
@@ -246,33 +549,47 @@ def run(report, tier, seed):
     fdir = common.scratch_dir("nrc17-")
     overlapped = SQLStore(url="sqlite+aiosqlite:///%s/gc.sqlite3" % fdir)
     overlapped.gc_overlap = True
-    stores = [KVStore(), SQLStore(), overlapped]
+    # a fourth one for the passes that fail: file-backed as well, so that another connection can hold the write lock; its own
+    # connections give up on a locked database after 50 ms (sqlite3's default is 5 s: same outcome, a hundred times slower)
+    lockable = SQLStore(url="sqlite+aiosqlite:///%s/gc-lockable.sqlite3?timeout=0.05" % fdir)
+    lockable.dbfile = "%s/gc-lockable.sqlite3" % fdir
+    stores = [KVStore(), SQLStore(), overlapped, lockable]
     report.coverage["rule"] = (
         "stores of 3-14 events with kinds 1/7/19999/20000/20001/29999/30000/10002 and expiration tags T-1, T, T+1, 1, "
         "999, 11-digit far future, malformed ('1700abc', '', ' 1700000000', '-5', leading zero), two expiration tags; a "
         "pass at T-1 / T / T+1; two passes of one long-lived collector with events arriving in between (also already expired "
         "ones); both backends, SQL also on a file-backed database with the pass overlapping a reader that holds a pooled "
-        "connection (tag rows must go with their events on whichever connection the pass gets); non-trivial = the pass removed something")
+        "connection (tag rows must go with their events on whichever connection the pass gets); non-trivial = the pass removed something; "
+        "passes that fail mid-way: one collector object run by its real periodic loop (start / Periodic._run / run_once, only the "
+        "sleep replaced), an optional clean pass, one or two passes with an obstacle (SQL: the write lock held by another "
+        "connection of a file-backed database, the statement failing before / after the engine ran it; LMDB: the read transaction "
+        "refused, a cursor positioning or the k-th step of a walk raising, the k-th put/delete of the queued deletions raising in "
+        "the writer), late arrivals, then two or three unobstructed passes of the same object: each pass removes nothing else, "
+        "after the last one everything due is gone, index rows included; non-trivial = the obstacle was reached and something was due")
     report.assumptions += ["clock: `time` of the storage module replaced by a constant",
                            "LMDB: ephemeral kinds are never stored through add_event (they are only broadcast)"]
     try:
         for e in report.known:
             r = common.load_finding_replay(e)
-            for st in stores:
+            for st in stores[:3]:
                 if st.backend == r["backend"]:
                     run_case(report, drv, st, r["events"], r["now"], "finding:" + e["id"])
         for i in range(12 if tier == "quick" else 300):
-            for st in stores:
+            for st in stores[:3]:
                 if st is overlapped and i % 3:
                     continue
                 two_pass_case(report, drv, st, rng, i)
         for i in range(80 if tier == "quick" else 2000):
             evs = gen_store(rng)
             now = T + rng.choice([-1, 0, 0, 1])
-            for st in stores:
+            for st in stores[:3]:
                 if st is overlapped and i % 4:
                     continue
                 run_case(report, drv, st, evs, now, i)
+        # passes that fail mid-way and the passes of the same collector after them (every kind of obstacle several times)
+        for i in range(16 if tier == "quick" else 400):
+            for st in (stores[0], stores[1], lockable):
+                failed_pass_case(report, st, gen_failed_pass_plan(rng, st), i)
     finally:
         for st in stores:
             st.close()
@@ -295,9 +612,17 @@ def replay(report, path):
             if r.get("overlap") and "sql-overlap" not in stores:
                 stores["sql-overlap"] = SQLStore(url="sqlite+aiosqlite:///%s/gc.sqlite3" % fdir)
                 stores["sql-overlap"].gc_overlap = True
-            if "backend" in r:
+            if r.get("scenario") == "failed-pass":
+                if r["backend"] == "sql" and r.get("file") and "sql-lockable" not in stores:
+                    stores["sql-lockable"] = SQLStore(url="sqlite+aiosqlite:///%s/gc-lockable.sqlite3?timeout=0.05" % fdir)
+                    stores["sql-lockable"].dbfile = "%s/gc-lockable.sqlite3" % fdir
+                failed_pass_case(report, stores["sql-lockable" if r["backend"] == "sql" and r.get("file") else r["backend"]], r, "replay")
+            elif "backend" in r and "events" in r:
                 run_case(report, drv, stores["sql-overlap" if r.get("overlap") else r["backend"]], r["events"], r["now"], "replay")
     finally:
         for st in stores.values():
             st.close()
         drv.close()
+        import shutil
+
+        shutil.rmtree(fdir, ignore_errors=True)
